@@ -217,9 +217,35 @@ class SynthAccumulateLoop:
                 for pt in list(I.ghost.get("points", {}).values()):
                     I.path.require(z3.Implies(cond, synth.accumulate_clause(I, pt, k, absent0, old, absent1, new, pre, m)),
                                    "loop-invariant:symbolic-accumulate/denotation-preserved", qfacts=True)
-                vs = sym.union(sym.union(synth.old_vars(I, absent0, old), spec.vars_of(I, m)), spec.vars_of(I, pre))
+                vs = sym.union(sym.union(synth.old_vars(I, absent0, old), spec.vars_of(I, m)), synth.vars_bound(I, pre))
                 I.path.require(z3.Implies(z3.And(cond, z3.Not(absent1)), gmode.skolem_subset(I, spec.vars_of(I, new), vs, "accvars")),
                                "loop-invariant:symbolic-accumulate/variables-preserved", qfacts=True)
+
+
+class MultiplySynthAccumulateLoop(SynthAccumulateLoop):
+    """Multiply._compute_synthetic_partials: after j iterations the accumulator is in the state the
+    contract prescribes for a virtual node whose derivative is the product rule cut off after j
+    terms,  d/dn = sum_{i<j} dV_i(n) * prod_{u != i} V_u,  which mentions the variables of the first j
+    children and is defined where every child is."""
+    def prefix(self, I, slf, sl, j):
+        key = ("ppr", z3.simplify(j).get_id() if z3.is_expr(j) else j)
+        cache = I.ghost.setdefault("prefix_nodes", {})
+        if key not in cache:
+            fam = sl.family
+            o = Obj(slf.cls, f"{slf.name}[product rule :{j}]")
+            jt = j if z3.is_expr(j) else z3.IntVal(j)
+
+            def custom_den(I2, pt):
+                whole = spec.den(I2, slf, pt)
+                dk = lambda t: spec.den(I2, fam.child(I2, t), pt)
+                return spec.Den(whole.D, whole.V, lambda n: gmode.bigsum(
+                    I2, lambda t: dk(t).dV(n) * gmode.bigprod_without(I2, lambda u: dk(u).V, t, fam.length), jt))
+            o.ghost["custom_den"] = custom_den
+            o.ghost["custom_vars"] = lambda I2: gmode.bigunion(I2, jt, lambda t: spec.vars_of(I2, fam.child(I2, t)), f"Vars({o.name})")
+            # every term's multiplier mentions all the other children
+            o.ghost["vars_bound"] = lambda I2: spec.vars_of(I2, slf)
+            cache[key] = o
+        return cache[key]
 
 
 REGISTRY = {
@@ -227,4 +253,5 @@ REGISTRY = {
     ("Add._compute_numeric_partials", 0): AccumulateLoop(),
     ("Add._compute_synthetic_partials", 0): SynthAccumulateLoop(),
     ("Multiply._compute_numeric_partials", 0): MultiplyAccumulateLoop(),
+    ("Multiply._compute_synthetic_partials", 0): MultiplySynthAccumulateLoop(),
 }
